@@ -182,7 +182,11 @@ impl Drop for Incomplete {
         let mut stack = Vec::new();
         push_children(&mut stack, std::mem::replace(self, Incomplete::Cycle));
         while let Some(child) = stack.pop() {
+            #[cfg(feature = "verif-hooks")]
+            crate::verif::yield_point();
             if let Some(mut child) = Arc::into_inner(child) {
+                #[cfg(feature = "verif-hooks")]
+                crate::verif::probe(10);
                 push_children(&mut stack, std::mem::replace(&mut child, Incomplete::Cycle));
             }
         }
@@ -239,6 +243,8 @@ impl Incomplete {
             }
             if !in_progress.insert(id) {
                 // FIXME unwind the stack to somehow provide a more useful trace of the occurs-check failure
+                #[cfg(feature = "verif-hooks")]
+                crate::verif::probe(3);
                 return Some(Arc::new(Self::Cycle));
             }
 
